@@ -1,6 +1,7 @@
 package main
 
 import (
+	"math"
 	"fmt"
 	"go/token"
 	"go/types"
@@ -292,6 +293,52 @@ func ruleForwardOnce(c *Ctx, cf *chanFlow, classes []*chanClass) {
 					}
 					if countSends && forwarded != 1 && endsSegment(p, s.recv) {
 						bad = fmt.Sprintf("a received message is forwarded %d times (must be exactly once)", forwarded)
+					}
+				}
+			}
+		}
+		// a relay that parks the received message in a variable and writes it from a later select iteration must not
+		// keep receiving meanwhile: an ungated receive overwrites the parked message
+		for _, b := range fn.Blocks {
+			for _, in := range b.Instrs {
+				sel, ok := in.(*ssa.Select)
+				if !ok {
+					continue
+				}
+				carried := func(v ssa.Value) bool {
+					for i := 0; i < 4; i++ {
+						switch x := v.(type) {
+						case *ssa.ChangeType:
+							v = x.X
+						case *ssa.Convert:
+							v = x.X
+						}
+					}
+					switch x := v.(type) {
+					case *ssa.Phi:
+						for _, p := range x.Block().Preds {
+							if x.Block().Dominates(p) {
+								return true // loop-carried
+							}
+						}
+					case *ssa.UnOp:
+						_, isAlloc := x.X.(*ssa.Alloc)
+						return isAlloc
+					}
+					return false
+				}
+				parked := false
+				for _, st := range sel.States {
+					if st.Dir == types.SendOnly && st.Send != nil && carried(st.Send) {
+						parked = true
+					}
+				}
+				if !parked {
+					continue
+				}
+				for i, st := range sel.States {
+					if st.Dir == types.RecvOnly && midiState[in] != nil && midiState[in][i] && !carried(st.Chan) {
+						bad = fmt.Sprintf("the select at %s sends a message parked in a variable by an earlier iteration while its receive case on the MIDI channel stays enabled: a message received before the parked one is written overwrites it (lost message)", c.P.Pos(sel.Pos()))
 					}
 				}
 			}
@@ -798,6 +845,50 @@ func ruleInsertUnderMiss(c *Ctx, spawn *ssa.Function, outputsF *types.Var) {
 			key := "utils.DynamicFanOut.SpawnOutput/insert-only-under-a-free-id"
 			keyTerm := vw.Term(mu.Key).String()
 			okMiss := missGuard(vw, b, nil, keyTerm, outputsF, 0)
+			if !okMiss {
+				// `for id = 0; id < max; id++ { if free(id) { break } }; if id == max { return }; outputs[id] = ...`:
+				// at a join dominating the insert, every incoming edge either carries the miss or contradicts the
+				// conditions that hold at the insert (interval reasoning on the id)
+				tlo, thi := typeRange(mu.Key.Type())
+				if bt, isB := mu.Key.Type().Underlying().(*types.Basic); isB && (bt.Kind() == types.Int64 || bt.Kind() == types.Int) {
+					tlo, thi = math.MinInt64, math.MaxInt64
+				}
+				init := bound{lo: tlo, hi: thi, hasLo: true, hasHi: true}
+				atB := boundsFrom(vw.GuardsAt(b), keyTerm, init)
+				for d := b; d != nil && !okMiss; d = d.Idom() {
+					if len(d.Preds) < 2 {
+						continue
+					}
+					all := true
+					for _, pred := range d.Preds {
+						var ex []Atom
+						if ifi, isIf := pred.Instrs[len(pred.Instrs)-1].(*ssa.If); isIf && pred.Succs[0] != pred.Succs[1] {
+							ex = append(ex, Atom{Cond: vw.Term(ifi.Cond), Taken: pred.Succs[0] == d, Instr: ifi})
+						}
+						if missGuard(vw, pred, ex, keyTerm, outputsF, 0) {
+							continue
+						}
+						onEdge := boundsFrom(append(vw.GuardsAt(pred), ex...), keyTerm, init)
+						lo, hi := onEdge.lo, onEdge.hi
+						if atB.hasLo && atB.lo > lo {
+							lo = atB.lo
+						}
+						if atB.hasHi && atB.hi < hi {
+							hi = atB.hi
+						}
+						for lo <= hi && (atB.excluded[lo] || onEdge.excluded[lo]) {
+							lo++
+						}
+						for lo <= hi && (atB.excluded[hi] || onEdge.excluded[hi]) {
+							hi--
+						}
+						if lo <= hi {
+							all = false // this edge can reach the insert without a miss
+						}
+					}
+					okMiss = all
+				}
+			}
 			c.Check(okMiss, "R15.3", key, c.P.Pos(mu.Pos()), "the id inserted was looked up (comma-ok) and found absent on every path to the insert",
 				"a new output is inserted under an id that was not checked to be free: a live device's entry can be overwritten (it stops receiving MIDI input and its channel is never closed)")
 		}
